@@ -21,7 +21,7 @@ use domain::dnssec::sign::denial::nsec3::{generate_nsec3s, GenerateNsec3Config, 
 use domain::dnssec::sign::records::{DefaultSorter, SortedRecords};
 use domain::rdata::nsec3::Nsec3Salt;
 use domain::base::rdata::UnknownRecordData;
-use domain::rdata::{Cname, Ds, Ns, Nsec3param, Soa, Txt, ZoneRecordData, A};
+use domain::rdata::{Aaaa, Cname, Ds, Ns, Nsec3param, Soa, Txt, ZoneRecordData, A};
 use mc::*;
 use rayon::prelude::*;
 use serde_json::{json, Value};
@@ -564,6 +564,7 @@ fn lname(l: &Labels) -> LName {
 fn mk_rec(owner: &Labels, t: u16, v: u8) -> LRec {
     let data: LData = match t {
         T_A => ZoneRecordData::A(A::from_octets(192, 0, 2, v)),
+        T_AAAA => ZoneRecordData::Aaaa(Aaaa::new(std::net::Ipv6Addr::new(0x2001, 0xdb8, 0, 0, 0, 0, 0, v as u16))),
         T_NS => ZoneRecordData::Ns(Ns::new(lname(&vec![format!("ns{v}").into_bytes(), b"invalid".to_vec()]))),
         T_CNAME => ZoneRecordData::Cname(Cname::new(lname(&vec![format!("t{v}").into_bytes(), b"invalid".to_vec()]))),
         T_SOA => ZoneRecordData::Soa(Soa::new(
@@ -1451,9 +1452,14 @@ fn slots(quick: bool) -> Vec<Slot> {
         vec![
             s("a.z.", 1, full),
             s("A.z.", 2, &[&[], &[T_A], &[T_TXT]]),
-            s("b.a.z.", 1, &[&[], &[T_A], &[T_TXT, T_CAA, T_PRIV], &[T_A, T_PRIV, T_PRIV2]]),
+            s("b.a.z.", 1, &[&[], &[T_TXT, T_CAA, T_PRIV], &[T_A, T_PRIV, T_PRIV2]]),
+            // y.a.z. never owns data: an ENT whose nearest non-empty
+            // ancestor is a.z. (not the apex) whenever a.z./A.z. has data
+            s("x.y.a.z.", 1, &[&[], &[T_A]]),
             s("*.a.z.", 1, &[&[], &[T_A], &[T_CNAME]]),
-            s("c.z.", 1, &[&[], &[T_NS], &[T_NS, T_A]]),
+            // delegation owners with glue-at-the-cut: two A records sort
+            // before the NS RRset; A + NS + AAAA surrounds it
+            s("c.z.", 1, &[&[], &[T_NS], &[T_NS, T_A, T_A], &[T_NS, T_A, T_AAAA]]),
             s("g.c.z.", 1, &[&[], &[T_A]]),
             s("o.c.z.", 1, &[&[], &[T_TXT]]),
             s("d.z.", 1, &[&[], &[T_NS, T_DS]]),
@@ -1465,13 +1471,14 @@ fn slots(quick: bool) -> Vec<Slot> {
         vec![
             s("a.z.", 1, full),
             s("A.z.", 2, &[&[], &[T_A], &[T_A, T_TXT]]),
-            s("b.a.z.", 1, &[&[], &[T_A], &[T_A, T_TXT], &[T_CNAME], &[T_TXT, T_CAA, T_PRIV], &[T_A, T_PRIV, T_PRIV2]]),
-            s("*.a.z.", 1, full),
-            s("c.z.", 1, &[&[], &[T_NS], &[T_NS, T_A]]),
+            s("b.a.z.", 1, &[&[], &[T_A], &[T_CNAME], &[T_TXT, T_CAA, T_PRIV], &[T_A, T_PRIV, T_PRIV2]]),
+            s("x.y.a.z.", 1, &[&[], &[T_A]]),
+            s("*.a.z.", 1, &[&[], &[T_A], &[T_CNAME]]),
+            s("c.z.", 1, &[&[], &[T_NS], &[T_NS, T_A], &[T_NS, T_A, T_A], &[T_NS, T_A, T_AAAA]]),
             s("g.c.z.", 1, &[&[], &[T_A]]),
             s("o.c.z.", 1, &[&[], &[T_TXT], &[T_NS]]),
-            s("d.z.", 1, &[&[], &[T_NS, T_DS], &[T_NS, T_DS, T_TXT]]),
-            s("e.f.z.", 1, full),
+            s("d.z.", 1, &[&[], &[T_NS, T_DS], &[T_NS, T_DS, T_TXT, T_A, T_A]]),
+            s("e.f.z.", 1, &[&[], &[T_A], &[T_CNAME]]),
             s("h.f.z.", 1, &[&[], &[T_A], &[T_NS]]),
             s("k.e.f.z.", 1, &[&[], &[T_A]]),
         ]
@@ -1514,8 +1521,10 @@ fn zone_of_index(sl: &[Slot], mut idx: u64) -> (Vec<(Labels, u16, u8)>, Vec<usiz
         let k = (idx % s.kinds.len() as u64) as usize;
         idx /= s.kinds.len() as u64;
         kinds.push(k);
-        for t in &s.kinds[k] {
-            recs.push((parse_name(s.name), *t, s.variant));
+        for (i, t) in s.kinds[k].iter().enumerate() {
+            // a type listed twice = two records of one RRset (different RDATA)
+            let occ = s.kinds[k][..i].iter().filter(|x| *x == t).count() as u8;
+            recs.push((parse_name(s.name), *t, s.variant + 10 * occ));
         }
     }
     let ooz = idx % 2 == 1;
@@ -1725,6 +1734,25 @@ fn main() {
             }
             if z.cls[f_id] == Cls::Ent && (0..u.names.len()).filter(|&i| u.parent[i] == Some(f_id) && matches!(z.cls[i], Cls::Owner | Cls::Cut | Cls::Ent)).count() >= 2 {
                 loc.inc("zones_with_ent_shared_by_two_branches");
+            }
+            let ent_below_owner = (0..u.names.len()).any(|i| {
+                if z.cls[i] != Cls::Ent {
+                    return false;
+                }
+                let mut p = u.parent[i];
+                while let Some(q) = p {
+                    if z.cls[q] != Cls::Ent {
+                        return q != u.apex;
+                    }
+                    p = u.parent[q];
+                }
+                false
+            });
+            if ent_below_owner {
+                loc.inc("zones_with_ent_whose_nearest_nonempty_ancestor_is_not_the_apex");
+            }
+            if (0..u.names.len()).any(|i| z.cls[i] == Cls::Cut && z.recs.iter().filter(|(o, t, _)| *t == T_A && u.id_of(o) == Some(i)).count() >= 2) {
+                loc.inc("zones_with_delegation_owning_two_A_records_before_NS");
             }
             if z.types.iter().any(|t| t.iter().any(|x| *x >= 256)) {
                 loc.inc("zones_with_multi_window_bitmap");
